@@ -151,7 +151,12 @@ Fit(fld, body) == IF Len(body) > fld.width THEN <<cPct>> \o body
 WithZero(fld, headNoZero, tail) ==
     LET plain == headNoZero \o tail
         zero  == headNoZero \o <<cZero>> \o tail
-    IN  IF Len(zero) <= fld.width /\ ~fld.dollar THEN {Fit(fld, zero)} ELSE {Fit(fld, plain), Fit(fld, zero)}
+    IN  IF Len(zero) <= fld.width /\ ~fld.dollar THEN {Fit(fld, zero)}
+        \* a number whose representation without the zero FITS must not be flagged with '%' (it fits the field)
+        \* (when a leading sign or '$' takes the place of the zero, the interpreter - like GW-BASIC - counts the zero as
+        \*  part of the representation and flags the overflow: both readings stay admitted there)
+        ELSE IF Len(plain) <= fld.width /\ Len(zero) > fld.width /\ headNoZero = <<>> THEN {Fit(fld, plain)}
+        ELSE {Fit(fld, plain), Fit(fld, zero)}
 
 \* fixed point: S = all digits shown (integer part, then fld.dec decimals)
 FixedAdmitted(fld, neg, S) ==
